@@ -154,7 +154,11 @@ def run_case(case):
 
 
 MANIFEST = {
-    'text': ('Generated search over (DAG, outcomes, worker count, schedule) with the harness owning the '
+    'text': ('Graphs may contain nested graph nodes (groups, empty ones included), tasks are inserted in a '
+             'generated order, updates also go to a top-level key shared by all tasks, the back-end object may '
+             'first have scheduled another graph over the same task names, Condition.wait may wake up '
+             'spuriously. '
+             'Generated search over (DAG, outcomes, worker count, schedule) with the harness owning the '
              'schedule of the real, unmodified back-end (instrumented threading/queue/time substituted at '
              'import), plus complete enumeration of all schedules with at most 2 pre-emptions for small '
              'configurations. The oracle is evaluated inside the probe tasks at the moment they start. '
